@@ -182,7 +182,8 @@ func (l *Lexer) nextInsideToken() token.Token {
 				break
 			}
 		}
-		tok = l.nextInsideToken()
+		// the token after the comment is complete: do not advance past it again
+		return l.nextInsideToken()
 	case '[':
 		tok = l.newToken(token.LBRACKET)
 	case ']':
